@@ -966,9 +966,13 @@ var blockRules = map[BlockKind]blockRule{
 	HTMLBlockKind: {
 		match: func(p *lineParser) bool {
 			if htmlBlockConditions[p.ContainerHTMLCondition()].endCondition(p.BytesAfterIndent()) {
-				if !p.IsRestBlank() {
-					p.CollectInline(RawHTMLKind, len(p.BytesAfterIndent()))
+				if p.IsRestBlank() {
+					// A blank line ends the block without being part of it.
+					// Leave it to be handled like any other blank line,
+					// so that it counts when deciding whether a list is loose.
+					return false
 				}
+				p.CollectInline(RawHTMLKind, len(p.BytesAfterIndent()))
 				p.ConsumeLine()
 				return false
 			}
